@@ -34,7 +34,7 @@ def part_from_result(res, configs, tier, build_s, extra_assumptions=()):
         "frontier_unknown": res.frontier_unknown, "facts_checked": res.facts_checked,
         "traces_validated": res.replays + res.translator_checks, "translator_mismatches": res.translator_mismatches,
         "nontrivial": len(res.nontrivial), "samples": res.samples, "tool_errors": res.tool_errors + [f"translator mismatch: {m}" for m in res.translator_mismatches],
-        "vacuity_twins": res.vacuity, "harness_build_s": round(build_s, 1),
+        "vacuity_twins": res.vacuity, "harness_build_s": round(build_s, 1), "skipped_private_accessors": getattr(res, "skipped_accessors", []),
         "assumptions": R_ASSUMPTIONS + list(extra_assumptions),
     }
 
@@ -51,11 +51,22 @@ def run(prop, tier, seed):
         engine_r.explore(h, res, scenario, cfg, spec["prefixes"], budget, evidence.REPLAY_DIR)
     # translator validation: the first configs are also executed natively on f64 at the shadow inputs and
     # every obligation must hold numerically (the Sym run and the f64 run execute the same source)
-    for (scenario, cfg) in configs[: (3 if tier == "quick" else 8)]:
+    nval = len(configs) if all(sc in ("stats", "relw_stats") for sc, _ in configs) else (3 if tier == "quick" else 8)
+    vconfigs = list(configs[:nval])
+    # the statistics are additionally validated natively at extreme scales of the weights (absolute thresholds show up there)
+    vconfigs += [(sc, dict(c, wscale10=k)) for (sc, c) in configs[:nval] if sc == "stats" and "fail" not in c and int(c.get("n", 0)) > int(c.get("m", 0)) + int(c.get("p", 0)) for k in (-9, 6)]
+    for (scenario, cfg) in vconfigs:
         d64 = h.run("f64", scenario, cfg)
         bad = engine_r.numeric_failures(d64, spec["prefixes"])
         res.translator_checks += 1
+        native = [b for b in bad if ".native." in str(b[0])]
+        for b in native[:1]:
+            # checks that only exist natively (public API on f64, e.g. the confidence band): a failure is a violation
+            engine_r.record_violation(h, res, scenario, cfg, d64, b[0], str(b[1]), spec["prefixes"], evidence.REPLAY_DIR, inputs={})
+        bad = [b for b in bad if ".native." not in str(b[0])]
         if bad and not res.violations:
             res.translator_mismatches.append(f"{scenario} {cfg}: {bad[:2]}")
+    if getattr(h, "accessors", None) is not None and set(h.accessors) != set(h.ACCESSORS):
+        res.skipped_accessors = sorted(set(h.ACCESSORS) - set(h.accessors))
     engine_r.vacuity_twins(h, res, prop, budget)
     return part_from_result(res, configs, tier, h.build_s)
